@@ -165,6 +165,9 @@ class DataPacketQueue(utils.EventEmitter):
                 f'{packet_count} completed for {connection_handle} '
                 f'but only {connection_state.in_flight} in flight'
             )
+            # Only the packets actually in flight for this connection can be
+            # completed, the other connections still hold their buffers.
+            packet_count = connection_state.in_flight
             connection_state.in_flight = 0
         if connection_state.in_flight == 0:
             connection_state.drained.set()
